@@ -495,9 +495,10 @@ class TorrentFileStream:
         # `skip_bytes` is the number of bytes from `fh` to dump before
         # reading the next piece.
 
-        if skip_bytes:
-            skipped = fh.seek(skip_bytes)
-            skip_bytes -= skipped
+        # Always position the file handle explicitly. Handles are kept open and
+        # re-used, so a previous read may have left it anywhere in the file.
+        skipped = fh.seek(skip_bytes)
+        skip_bytes -= skipped
 
         def iter_pieces(fh, prepend):
             piece_size = self._torrent.piece_size
